@@ -2,6 +2,7 @@ package main
 
 import (
 	"fmt"
+	"os"
 	"path"
 	"path/filepath"
 	"strings"
@@ -25,7 +26,7 @@ func init() { streams["fsutil"] = runFsutil }
 //     segment; the same stated textually on the clean result; the result is clean;
 //   - for a url without "." / ".." segments: result == filepath.Join(base, url).
 
-var fsutilBases = []string{"/data", "/", ".", "..", "a/../..", "./x/", "/a//b/", "../x", "a", "/..", "/a", "/a/a"}
+var fsutilBases = []string{"/data", "/", ".", "..", "a/../..", "./x/", "/a//b/", "../x", "a", "/..", "/a", "/a/a", "/srv/pub\\", "/\\", "a\\"}
 
 type fsutilCase struct {
 	Base string `json:"base"`
@@ -301,6 +302,23 @@ func runFsutil(cfg Cfg) {
 		}
 	}
 	checkHeld()
+	// bases that exist, with symbolic links inside that lead out of them: the function is lexical - what is on
+	// the disk has no say in the result
+	if root, err := os.MkdirTemp(cfg.Out, "fsu"); err == nil {
+		os.MkdirAll(filepath.Join(root, "www", "sub"), 0o755)
+		os.WriteFile(filepath.Join(root, "secret"), []byte("x"), 0o644)
+		os.Symlink("/", filepath.Join(root, "www", "rootlink"))
+		os.Symlink("..", filepath.Join(root, "www", "up"))
+		os.Symlink(filepath.Join(root, "secret"), filepath.Join(root, "www", "sub", "s"))
+		os.Symlink(filepath.Join(root, "www"), filepath.Join(root, "wwwlink"))
+		for _, b := range []string{filepath.Join(root, "www"), filepath.Join(root, "wwwlink"), filepath.Join(root, "www", "up")} {
+			for _, u := range []string{"/rootlink/etc/passwd", "/up/secret", "up/secret", "/sub/s", "/sub/../up/secret", "/", "", "/rootlink", "/up", "/sub/./s/"} {
+				resolve(b, u, false)
+			}
+		}
+		os.RemoveAll(root)
+		s.Count("bases-on-disk-with-symlinks")
+	}
 	// concurrent callers with different bases: a result must depend on its own arguments only
 	var wg sync.WaitGroup
 	var cmu sync.Mutex
